@@ -100,6 +100,44 @@ EDITS = {
                     }
                 }""")]),
  'get-signal-local': ('src/loop_logic.rs', [('        LoopSignal {\n            signal: self.signals.clone(),\n            notifier: self.handle.inner.poll.borrow().notifier(),\n        }', '        let notifier = self.handle.inner.poll.borrow().notifier();\n        LoopSignal {\n            signal: self.signals.clone(),\n            notifier,\n        }')]),
+ 'before-sleep-flag-accumulated': ('src/loop_logic.rs', [("""            let sources = &self.handle.inner.sources.borrow();
+            for source in &mut *extra_lifecycle_sources.values {
+                if let Ok(SourceEntry {
+                    source: Some(disp), ..
+                }) = sources.get(source.inner)
+                {
+                    if let Some((readiness, token)) = disp.before_sleep()? {
+                        // Wake up instantly after polling if we recieved an event
+                        timeout = Some(Duration::ZERO);
+                        self.synthetic_events.push(PollEvent { readiness, token });
+                    }
+                } else {
+                    unreachable!()
+                }
+            }
+        }""", """            let sources = &self.handle.inner.sources.borrow();
+            let mut has_synthetic_event = false;
+            for source in &mut *extra_lifecycle_sources.values {
+                if let Ok(SourceEntry {
+                    source: Some(disp), ..
+                }) = sources.get(source.inner)
+                {
+                    let synthetic_event = disp.before_sleep()?;
+                    if synthetic_event.is_some() {
+                        has_synthetic_event = true;
+                    }
+                    if let Some((readiness, token)) = synthetic_event {
+                        self.synthetic_events.push(PollEvent { readiness, token });
+                    }
+                } else {
+                    unreachable!()
+                }
+            }
+            if has_synthetic_event {
+                // Wake up instantly after polling if we recieved an event
+                timeout = Some(Duration::ZERO);
+            }
+        }""")]),
 }
 
 only = sys.argv[1:]
